@@ -114,6 +114,8 @@ UNITS_INFO = [("volume_reader", "nibabel_image_to_info", "vs", 1e6),
        "memory-mapped vs full-load equality"],
       ["NumPy promotion / safe-cast / iinfo tables embedded in rules_dtype"])
 def c01(repo, col):
+    M3.driver_chain(repo, col, shorts=["volume_reader"])
+    M3.new_dataset_stores_info(repo, col)
     M3.payload_reaches_storage(repo, col)
     M3.squeeze_without_axis(repo, col, ["volume_reader"])
     M3.multichannel_table_agrees(repo, col)
@@ -162,6 +164,8 @@ def c01(repo, col):
       ["compressed_segmentation format as published in the Neuroglancer "
        "repository"])
 def c02(repo, col):
+    M3.decoder_fills_output(repo, col)
+    M3.encoder_dispatch(repo, col)
     M3.cseg_bit_order(repo, col)
     SP.cseg_layout(repo, col)
     A.check_modules(repo, col, ["_compressed_segmentation", "chunk_encoding"])
@@ -186,6 +190,9 @@ def c02(repo, col):
       ["value round trips of each codec", "JPEG error bound",
        "interleavings of writes and reads"])
 def c03(repo, col):
+    M3.decoder_fills_output(repo, col)
+    M3.encoder_dispatch(repo, col)
+    M3.new_dataset_stores_info(repo, col)
     M3.payload_reaches_storage(repo, col, only=["file_accessor", "precomputed_io"])
     O.validation_dominates_io(repo, col)
     B.validator_complete(repo, col)
@@ -253,6 +260,7 @@ def c04(repo, col):
        "of a stateful buffer)", "content of data written by the on-disk "
        "byte array"])
 def c05(repo, col):
+    M3.seek_before_read(repo, col)
     M3.payload_reaches_storage(repo, col, only=["sharded_file_accessor", "sharded_base"])
     M3.dirty_cleared_after_write(repo, col)
     sh = ["sharded_base", "sharded_file_accessor", "sharded_http_accessor"]
@@ -291,6 +299,7 @@ def c05(repo, col):
       ["the downscaler's values", "that the scale generator only emits "
        "compatible scale pairs"])
 def c06(repo, col):
+    M3.driver_chain(repo, col, shorts=["dyadic_pyramid", "scripts.compute_scales"])
     M3.downscaler_dispatch(repo, col)
     T.tiling_site(repo, col, "dyadic_pyramid", "compute_dyadic_downscaling")
     T.coords_tuple(repo, col, "dyadic_pyramid", "compute_dyadic_downscaling")
@@ -390,6 +399,8 @@ def c09(repo, col):
        "with trusted shape are total",
        "x[:n] of an array with at least n elements has exactly n elements"])
 def c10(repo, col):
+    M3.decoder_fills_output(repo, col)
+    M3.encoder_dispatch(repo, col)
     M3.pil_truncation_switch(repo, col)
     X.decoder_scope(repo, col, "chunks")
     X.decoded_shape(repo, col)
@@ -434,6 +445,7 @@ def c11(repo, col):
        "chunk-name patterns are axis-consistent; options reach FileAccessor"],
       ["last-write-wins over operation histories", "gzip stream validity"])
 def c12(repo, col):
+    M3.chunk_name_component_order(repo, col)
     M3.payload_reaches_storage(repo, col, only=["file_accessor"])
     M3.gzip_branch_polarity(repo, col)
     M3.write_open_truncates(repo, col)
@@ -463,6 +475,8 @@ def c12(repo, col):
        "flush chain"],
       ["decoded equality of source and destination", "remote sources"])
 def c13(repo, col):
+    M3.driver_chain(repo, col, shorts=["scripts.convert_chunks"])
+    M3.new_dataset_stores_info(repo, col)
     M3.payload_reaches_storage(repo, col)
     T.tiling_site(repo, col, "scripts.convert_chunks",
                   "convert_chunks_for_scale")
@@ -503,6 +517,8 @@ def c13(repo, col):
       ["byte equality with local reads", "server behaviours beyond status "
        "and length"])
 def c14(repo, col):
+    M3.seek_before_read(repo, col)
+    M3.probe_statuses(repo, col)
     M3.legacy_suffix_polarity(repo, col)
     M2.shard_protocol_guards(repo, col)
     sh = ["sharded_base", "sharded_http_accessor", "http_accessor"]
@@ -538,6 +554,7 @@ def c14(repo, col):
       ["numpy.moveaxis / basic slicing semantics on axis labels as modelled "
        "in rules_orient"])
 def c15(repo, col):
+    M3.driver_chain(repo, col, shorts=["scripts.slices_to_precomputed"])
     M3.squeeze_without_axis(repo, col, ["scripts.slices_to_precomputed"])
     S.orientation_tables(repo, col)
     OR.orientation_semantics(repo, col)
@@ -589,6 +606,7 @@ def c16(repo, col):
        "mm -> nm factor 1e6; fragment link name and JSON shape"],
       ["VTK grammar conformance", "vertex values after arbitrary affines"])
 def c17(repo, col):
+    M3.driver_chain(repo, col, shorts=["scripts.mesh_to_precomputed"])
     M3.label_parsed_as_integer(repo, col)
     SP.mesh_formats(repo, col)
     X.decoder_scope(repo, col, "mesh")
@@ -617,6 +635,8 @@ def c17(repo, col):
       ["atomicity of plain chunk files (there is none: detection relies on "
        "the decoders, C10)", "behaviour under each errno"])
 def c18(repo, col):
+    M3.probe_statuses(repo, col)
+    M3.driver_chain(repo, col)
     M3.payload_reaches_storage(repo, col)
     M3.pil_truncation_switch(repo, col)
     M3.dirty_cleared_after_write(repo, col)
@@ -644,6 +664,8 @@ def c18(repo, col):
        "always pass through the codec"],
       ["equality of the two outputs", "idempotence of repeated steps"])
 def c19(repo, col):
+    M3.driver_chain(repo, col)
+    M3.new_dataset_stores_info(repo, col)
     M3.payload_reaches_storage(repo, col)
     M3.all_in_one_info_edits(repo, col)
     M3.new_dataset_store_failure(repo, col)
@@ -674,6 +696,7 @@ def c19(repo, col):
        "no state shared between calls"],
       ["readable_count's digit / width promise (arithmetic over format())"])
 def c20(repo, col):
+    M3.driver_chain(repo, col, shorts=["scripts.scale_stats"])
     M3.stats_bytes_include_channels(repo, col)
     T.count_formula(repo, col)
     M2.stats_accumulation_nesting(repo, col)
